@@ -48,3 +48,82 @@ pub fn field_name(req: &Value) -> Value {
         Err(e) => json!({"err": format!("{:?}", e)}),
     }
 }
+
+use rustpython_format::cformat::{
+    CConversionFlags, CFormatBytes, CFormatPart, CFormatPrecision, CFormatQuantity, CFormatSpec, CFormatString,
+};
+use std::str::FromStr;
+
+fn quantity_json(q: &Option<CFormatQuantity>) -> Value {
+    match q {
+        None => Value::Null,
+        Some(CFormatQuantity::Amount(n)) => json!(n),
+        Some(CFormatQuantity::FromValuesTuple) => json!("*"),
+    }
+}
+
+fn cspec_json(s: &CFormatSpec) -> Value {
+    json!({
+        "k": "spec",
+        "key": s.mapping_key,
+        "flags": {
+            "HASH": s.flags.contains(CConversionFlags::ALTERNATE_FORM),
+            "ZERO": s.flags.contains(CConversionFlags::ZERO_PAD),
+            "MINUS": s.flags.contains(CConversionFlags::LEFT_ADJUST),
+            "SP": s.flags.contains(CConversionFlags::BLANK_SIGN),
+            "PLUS": s.flags.contains(CConversionFlags::SIGN_CHAR),
+        },
+        "width": quantity_json(&s.min_field_width),
+        "prec": match &s.precision {
+            None => Value::Null,
+            Some(CFormatPrecision::Dot) => json!("."),
+            Some(CFormatPrecision::Quantity(CFormatQuantity::Amount(n))) => json!(n),
+            Some(CFormatPrecision::Quantity(CFormatQuantity::FromValuesTuple)) => json!("*"),
+        },
+        "ty": s.format_char.to_string(),
+    })
+}
+
+/// {s, bytes} -> {"ok":[parts]} | {"err":{"kind","index"}}
+pub fn cfmt_split(req: &Value) -> Value {
+    let s = req["s"].as_str().unwrap();
+    if req["bytes"].as_bool().unwrap_or(false) {
+        match CFormatBytes::parse_from_bytes(s.as_bytes()) {
+            Ok(f) => json!({"ok": f.iter().map(|(i, p)| match p {
+                CFormatPart::Literal(t) => json!({"k": "lit", "t": String::from_utf8_lossy(t), "i": i}),
+                CFormatPart::Spec(sp) => { let mut v = cspec_json(sp); v["i"] = json!(i); v }
+            }).collect::<Vec<_>>()}),
+            Err(e) => json!({"err": {"kind": format!("{:?}", e.typ), "index": e.index, "msg": format!("{}", e)}}),
+        }
+    } else {
+        match CFormatString::from_str(s) {
+            Ok(f) => json!({"ok": f.iter().map(|(i, p)| match p {
+                CFormatPart::Literal(t) => json!({"k": "lit", "t": t, "i": i}),
+                CFormatPart::Spec(sp) => { let mut v = cspec_json(sp); v["i"] = json!(i); v }
+            }).collect::<Vec<_>>()}),
+            Err(e) => json!({"err": {"kind": format!("{:?}", e.typ), "index": e.index, "msg": format!("{}", e)}}),
+        }
+    }
+}
+
+/// {spec, kind: int|str|chr|bytes|float, val / sval / bits} -> {"out": text} | {"err":..}
+pub fn cfmt_cell(req: &Value) -> Value {
+    let spec = match CFormatSpec::from_str(req["spec"].as_str().unwrap()) {
+        Ok(s) => s,
+        Err(e) => return json!({"err": format!("{:?}", e)}),
+    };
+    match req["kind"].as_str().unwrap() {
+        "int" => {
+            let v: rustpython_ast::bigint::BigInt = req["val"].as_str().map(|s| s.parse().unwrap()).unwrap_or_else(|| req["val"].as_i64().unwrap().into());
+            json!({"out": spec.format_number(&v)})
+        }
+        "str" => json!({"out": spec.format_string(req["sval"].as_str().unwrap().to_string())}),
+        "chr" => json!({"out": spec.format_char(req["sval"].as_str().unwrap().chars().next().unwrap())}),
+        "bytes" => json!({"out": String::from_utf8_lossy(&spec.format_bytes(req["sval"].as_str().unwrap().as_bytes()))}),
+        "float" => {
+            let f = f64::from_bits(req["bits"].as_str().unwrap().parse::<u64>().unwrap());
+            json!({"out": spec.format_float(f)})
+        }
+        _ => json!({"tool_error": "kind"}),
+    }
+}
